@@ -21,6 +21,7 @@ RARE = ("empty-es-generation", "empty-search-set", "duplicate-merge", "second-gp
 def cases(tier, seed):
     n = C.n_cases(tier, 260, 5200)
     out = []
+    n_edge = 0
     for i in range(n):
         rng = gen.rng_for(seed, "C09", i)
         D = int(rng.choice([1, 2, 3, 4, 5], p=[0.3, 0.35, 0.2, 0.1, 0.05]))
@@ -49,7 +50,11 @@ def cases(tier, seed):
             if rng.random() < 0.5:
                 opts["search_n_try"] = int(rng.choice([0, 1]))
         elif fam == "budget-edge":
-            mfe = int(rng.choice([1, 2, 3, 4, 5, 6, 8, 10, 17, 20, 21, 22, 25, 30, 33, 34, 35, 36, 40, 43, 44, 45]))
+            edge = [2, 3, 4, 5, 6, 8, 10, 17, 20, 21, 22, 25, 30, 33, 34, 35, 36, 40, 43, 44, 45, 1]
+            mfe = edge[n_edge % len(edge)]  # every edge budget appears in every run of the check (several modes each)
+            if mfe <= 6:
+                mode = ["det", "auto", "declared", "he"][(n_edge // len(edge)) % 4]
+            n_edge += 1
             if rng.random() < 0.5:
                 opts["noise_final_samples"] = int(rng.choice([0, 1, 10]))
         elif fam == "tiny-sd":
